@@ -4,8 +4,9 @@
 (* Records {ev, arg, ly, stat, vb, st}: LY and STAT as read afterwards,    *)
 (* vb/st = VBlank / STAT requested by the event.  Events: reset, pos(q)    *)
 (* (position set through the hook), wstat(v), wlyc(v), adv(n).             *)
-(* A register write may or may not request STAT at write time (not fixed   *)
-(* by the property); it never requests VBlank.                             *)
+(* A register write requests STAT when it makes LY = LYC (with the source  *)
+(* enabled) newly true, never otherwise except for a repeated request      *)
+(* while it stays true (accepted either way); it never requests VBlank.    *)
 (***************************************************************************)
 EXTENDS Lcd, TLC, IOUtils, Json, Sequences
 
@@ -18,8 +19,13 @@ Quiet == Recs[l].vb = 0 /\ Recs[l].st = 0
 
 Reset == IsEvent("reset") /\ p' = PowerOn /\ Regs(p') /\ Quiet
 Pos   == IsEvent("pos") /\ p' = [p EXCEPT !.q = Recs[l].arg] /\ Regs(p') /\ Quiet
-WStat == IsEvent("wstat") /\ p' = WriteSTAT(p, Recs[l].arg) /\ Regs(p') /\ Recs[l].vb = 0
-WLyc  == IsEvent("wlyc") /\ p' = WriteLYC(p, Recs[l].arg) /\ Regs(p') /\ Recs[l].vb = 0
+\* "... and when LY becomes equal to LYC with the coincidence enable set": a write to LYC or STAT that makes this newly
+\* true requests STAT then; after a write that leaves it false nothing is requested; where it was true and stays true a
+\* repeated request is accepted either way (the statement is silent)
+Coinc(x) == ReadLY(x) = x.lyc /\ Bit(x.en, 6) = 1
+WriteReq(old, new) == IF ~Coinc(new) THEN Recs[l].st = 0 ELSE (Coinc(old) \/ Recs[l].st = 1)
+WStat == IsEvent("wstat") /\ p' = WriteSTAT(p, Recs[l].arg) /\ Regs(p') /\ Recs[l].vb = 0 /\ WriteReq(p, p')
+WLyc  == IsEvent("wlyc") /\ p' = WriteLYC(p, Recs[l].arg) /\ Regs(p') /\ Recs[l].vb = 0 /\ WriteReq(p, p')
 \* LCDC does not influence the schedule (Dev_NoLcdOff): a write leaves position and requests alone
 WLcdc == IsEvent("wlcdc") /\ UNCHANGED p /\ Regs(p) /\ Quiet
 Adv   == IsEvent("adv") /\ LET r == Run(p, Recs[l].arg) IN
